@@ -10,6 +10,7 @@ from .prog import Case, S
 PROPERTY = "C20"
 LEVEL = "exploration"
 HARNESS = "hgdrive"
+SANITIZE = "asan"      # thorough tier: same batch under -fsanitize=address,undefined
 RULE = ("for each shape in {TS, TSS, TSD<Int,TS>, TSD<Int,TSS>, TSD<Str,TSB>, TSD<Int,TSD>, TSL<TS,3>, TSL<TSB,2>, TSB{TS,TSS}, "
         "TSW} and a random mutation history (gaps, removals, child-only ticks, cancelling mutations, invalidation-free): stage 1 "
         "source -> mirror + record R1 and two chained capture_delta/apply_delta copies each with a mirror; stage 2 replay(R1) -> "
